@@ -58,7 +58,8 @@ const SLACK_US: u64 = 1_000;
 #[derive(Clone, Debug, PartialEq)]
 struct ReqCfg {
     lane: u32,
-    tmo_us: u64,   // 0 = no timeout configured; ZERO_TMO = a timeout of Duration::ZERO is configured
+    tmo_us: u64,   // 0 = no timeout configured; ZERO_TMO = a timeout of Duration::ZERO is configured;
+                   // HUGE_TMO = a timeout of Duration::MAX ("never give up") is configured
     delay_us: u64, // handler sleeps this long before replying
     start_us: u64,
     hf: u32, // fault applied by the handler itself on entry: 0 none, 1 hold, 2 partition
@@ -514,8 +515,12 @@ fn run_case(case: &Case) -> RunOut {
 
             for (i, q) in case.reqs.iter().cloned().enumerate() {
                 let mut client = RpcClient::<EchoService>::new(lanes[q.lane as usize].clone());
-                if let (Some(b), true) = (bound_of(&q), mutate() != 3) {
-                    client.set_timeout(Duration::from_micros(b));
+                if mutate() != 3 {
+                    if q.tmo_us == HUGE_TMO {
+                        client.set_timeout(Duration::MAX);
+                    } else if let Some(b) = bound_of(&q) {
+                        client.set_timeout(Duration::from_micros(b));
+                    }
                 }
                 // Which public path issues the request is not part of the case's meaning: the
                 // configured client or a clone of it, a borrowed or an owned message.  It rotates
@@ -693,10 +698,13 @@ fn ev_time(ms: u64) -> u64 {
 const TMOS: [u64; 5] = [0, 300 * MS, 1000 * MS, 2000 * MS, 3000 * MS];
 /// "a timeout of zero is configured" (an exhausted time budget): the request must end at once
 const ZERO_TMO: u64 = u64::MAX;
+/// "a timeout of Duration::MAX is configured": the usual way to say "never give up"; it bounds
+/// nothing, so the request behaves as one without a timeout
+const HUGE_TMO: u64 = u64::MAX - 1;
 /// the configured bound in microseconds, if any
 fn bound_of(q: &ReqCfg) -> Option<u64> {
     match q.tmo_us {
-        0 => None,
+        0 | HUGE_TMO => None,
         ZERO_TMO => Some(0),
         v => Some(v),
     }
@@ -717,6 +725,7 @@ fn gen_exhaustive(thorough: bool, out: &mut Vec<Case>) -> usize {
     let mut salt = 1u64;
     let mut tmos: Vec<u64> = tmos.to_vec();
     tmos.push(ZERO_TMO);
+    tmos.push(HUGE_TMO);
     for &tmo in &tmos {
         for &delay in &[0u64, 500 * MS] {
             if tmo == ZERO_TMO && delay == 0 {
@@ -775,7 +784,7 @@ fn gen_random(rng: &mut Rng, idx: u64) -> Case {
     let mut reqs = Vec::new();
     let mut t = 5 + rng.below(20);
     for _ in 0..n {
-        let tmo = *rng.pick(&TMOS);
+        let tmo = if rng.chance(1, 12) { HUGE_TMO } else { *rng.pick(&TMOS) };
         let delay = match rng.below(6) {
             0 => 500 * MS,
             1 => 50 * MS,
@@ -956,6 +965,9 @@ fn main() {
             }
             if q.tmo_us == ZERO_TMO {
                 w.stats.hit("req_with_zero_timeout");
+            }
+            if q.tmo_us == HUGE_TMO {
+                w.stats.hit("req_with_unbounded_timeout");
             }
             if q.delay_us > 0 {
                 w.stats.hit("req_slow_handler");
